@@ -146,7 +146,7 @@ PROPS["C12"] = dict(
     level_text=("Reference-automaton monitor over real sockets: per request exactly one response (decided by CSeq order against an OPTIONS probe, "
                 "never by timeout), CSeq echo, constant Session id, status class and successor state per the automaton, no media before 200 PLAY, "
                 "no registration before 200 RECORD, counters/registry/consumers back to baseline after disconnect"),
-    level_note="WSP's WRAP alphabet is not driven here; where the statement is silent (repeated PLAY/RECORD) any single response is accepted",
+    level_note="WSP is driven with a 12-symbol WRAP alphabet (exhaustive to length 2/3 + random); where the statement is silent (repeated PLAY/RECORD, WSP PAUSE while playing, switching DESCRIBE<->ANNOUNCE inside one session) any single response is accepted",
     technique="runtime monitoring: online trace checker against a reference automaton, exhaustive bounded request sequences on the real server",
     assumptions=["on TCP an unknown first method is closed by the port multiplexer (C19), so such sequences get an OPTIONS preamble"],
 )
